@@ -205,8 +205,12 @@ fn verify_case(
                     // ... and the entry verified against the store file itself, whose name says nothing
                     // about its kind: the entry (a patch or not) decides which digest applies
                     let direct = d.find_entry(&link2).ok().map(|e| (e.verify_checksum(&blob, digest_of(algo)).map(|d| d.to_string()).map_err(|e| err_json(&e)), e.verify_checksums(&blob).into_iter().map(|r| r.is_ok()).collect::<Vec<_>>()));
+                    // (only where the two readings agree: the content has no marker line, or the
+                    // entry is not a patch - whether the entry or the name of the file handed in
+                    // decides the filtering is not in the statement)
                     if let Some((dv, dall)) = &direct {
-                        if dv.is_ok() != (recorded_hash == truth) || dall != &vec![recorded_hash == truth] {
+                        let agree = !patch || mdigest::patch_filter(content) == content;
+                        if agree && (dv.is_ok() != (recorded_hash == truth) || dall != &vec![recorded_hash == truth]) {
                             return (false, Err(json!({"Entry::verify_checksum on the store file": format!("{:?} {:?}", dv, dall)})), Err(json!("n/a")));
                         }
                     }
@@ -593,7 +597,7 @@ fn replay(run: &Run, doc: &Value) -> Option<Violation> {
             let r = guard(|| {
                 let mut t = Tally::new();
             let ins = ["f", "d/f", "e/d/f", "x/f"];
-            let root = run.scratch_dir().to_string_lossy().into_owned();
+            let root = "/scratch/lookup-root".to_string();
             let look: Vec<String> = vec![format!("{}/e/d/f", root), format!("{}/d/f", root), "f".to_string()];
             let mut d = Distinfo::new();
             let mut recorded: Vec<String> = vec![];
@@ -695,8 +699,8 @@ fn main() {
         t.sample(run.seed, i as u64, || json!({"content": bytes_json(content), "kinds": ["f.tgz", "patch-aa"], "algorithms": algos}));
     });
 
-    // lookup
-    let root = scratch.to_string_lossy().into_owned();
+    // lookup (entries point to a path that does not exist, nothing is opened: the root is just text)
+    let root = "/scratch/lookup-root".to_string();
     let paths: Vec<String> = vec![
         format!("{}/f", root), format!("{}/d/f", root), format!("{}/e/d/f", root), format!("{}/x/d/f", root),
         format!("{}/x/f", root), format!("{}/g", root), format!("{}/h", root), "f".to_string(), "d/f".to_string(), "q/e/d/f".to_string(),
